@@ -186,7 +186,7 @@ Proof. exact same_relb_sound. Qed.
 
 (* the state the driver continues from after an error is the transition system's; its programs are
    the operation's or the empty refusal *)
-Theorem C02_driver_error_state : forall x o, x_v (xnext_err x o) = fault_next (x_v x) o.
+Theorem C02_driver_error_state : forall x o hit_mani, x_v (xnext_err x o hit_mani) = fault_next (x_v x) o.
 Proof. exact xnext_err_v. Qed.
 
 Theorem C02_driver_programs : forall x s o p flag, xop_prog x s o = Some (p, flag) ->
